@@ -196,6 +196,8 @@ COMPUTERS2 = [
     {"name": "stft", "bank": {"name": "tonebank", "scaling_function": "bark", "num_filts": 4, "sampling_rate": RATE},
      "frame_length_ms": 20, "frame_shift_ms": 7, "pad_to_nearest_power_of_two": False, "kaldi_shift": True, "frame_style": "centered"},
     {"name": "si", "bank": {"name": "gabor", "scaling_function": "mel", "num_filts": 3, "sampling_rate": RATE}, "frame_shift_ms": 10},
+    {"name": "stft", "bank": {"name": "fbank", "num_filts": 4, "sampling_rate": RATE}, "frame_length_ms": 30, "frame_shift_ms": 10,
+     "frame_style": "causal", "kaldi_shift": True},   # kaldi_shift is documented to matter only for centered frames
 ]
 
 
